@@ -22,5 +22,32 @@ def nominal_build(ctx, lays):
             keep = set(f["n"] for f in l["fixes"]) | set(c03.disc_names(l))
             only = sorted(keep | set(names[:1]))
             yield ("c03", {"_k": "nom:%d" % li, "lay": l, "P0": P0.hex(), "only": only})
+        # attributes whose NAMES are related within one definition (equal but for case, one a prefix of the other, equal but for a
+        # digit): each supplied alone (with the structural attributes), with a non-zero value - every other attribute stays nominal
+        for li, l in enumerate(lays):
+            if not l["reachable"] or l["c"] not in (0, 1):
+                continue
+            def _plain(e):
+                # (scaled fields are left to C03: the value 'one raw unit' of a 2^-43 scale does not survive the 12-decimal rounding - D9a)
+                return not (e["k"] == "f" and e["sc"] == 1)
+
+            names = [e["n"] for e in l["lay"] if e["x"] == 1 and e["k"] in ("f", "x") and not e["n"].startswith("_HP") and _plain(e)]
+            rel = set()
+            low = {}
+            for n in names:
+                low.setdefault(n.lower(), []).append(n)
+            for grp in low.values():
+                if len(grp) > 1:
+                    rel.update(grp)
+            for a in names:
+                for b in names:
+                    if a != b and len(a) >= 4 and b.startswith(a) and not b[len(a):].lstrip("_").isdigit():
+                        rel.update((a, b))
+            if not rel:
+                continue
+            keep = set(f["n"] for f in l["fixes"]) | set(c03.disc_names(l))
+            P1 = build.zero_hp(l, walk.fill(l, "one", rng, cfgdb))
+            for n in sorted(rel)[:8]:
+                yield ("c03", {"_k": "rel:%d:%s" % (li, n), "lay": l, "P0": P1.hex(), "only": sorted(keep | {n})})
 
     run_batch(ctx, "T_Build", "T_Build.cfg", gen(), build.OBSERVERS, sigfn, c03.negfn, chunk=6000)
